@@ -14,7 +14,16 @@ import (
 
 func init() {
 	engines["C06"] = func() *ShardResult { return runSched("C06") }
-	engines["C14"] = func() *ShardResult { return runSched("C14") }
+	engines["C14"] = func() *ShardResult {
+		total := *fBudget
+		*fBudget = total * 5 / 6
+		res := newResult()
+		res.merge(runSched("C14"), "")
+		*fBudget = total / 6
+		res.merge(runSeq("C14"), "seq_")
+		*fBudget = total
+		return res
+	}
 	engines["RACE"] = runRaceFree
 }
 
